@@ -67,6 +67,12 @@ def point_codes(level):
             add(Z.__dict__[n])
         elif hasattr(Z, n):
             add(getattr(Z, n))
+    for n, v in Z.__dict__.items():  # every property of BackendZ3 (thread-local accessors, scratch buffers)
+        if isinstance(v, property):
+            add(v)
+    for n, v in B.__dict__.items():
+        if isinstance(v, property):
+            add(v)
     add(bz3.z3_solver_sat)
     add(base.Base.__new__)
     add(base.Base._calc_hash)
@@ -144,6 +150,30 @@ def make_body(uni_name, cls, hist, shared, out, i, registry):
                 except claripy.errors.UnsatError:
                     log.append(("build", "UNSAT"))
                 continue
+            if ev[0] == "strdigit":
+                # an operation the Z3 backend cannot translate, applied to a leaf that other threads use as well
+                S_ = shared["S"]
+                try:
+                    claripy.SolverStrings().satisfiable(extra_constraints=[claripy.StrIsDigit(S_)])
+                    log.append(("strdigit", "answered"))
+                except claripy.errors.ClaripyError:
+                    log.append(("strdigit", "declined"))
+                continue
+            if ev[0] == "streval":
+                S_ = shared["S"]
+                try:
+                    s2 = claripy.SolverStrings()
+                    s2.add(S_ == claripy.StringV(ev[1]))
+                    r = tuple(s2.eval(S_, 2))
+                    l = tuple(s2.eval(claripy.StrLen(S_), 2))
+                except Exception as e:  # noqa: BLE001
+                    out[i] = dict(failure={"reason": f"string query raised {type(e).__name__}: {e}"[:200]}, ev=("streval",))
+                    return
+                if r != (ev[1],) or l != (len(ev[1]),):
+                    out[i] = dict(failure={"reason": "string eval wrong", "got": [r, l]}, ev=("streval",))
+                    return
+                log.append(("streval", r))
+                continue
             ok = H.apply_event(run, ev, check=True)
             if not ok:
                 out[i] = dict(failure=run.failure, ev=ev)
@@ -163,7 +193,7 @@ DETERMINISTIC = {"sat", "min", "max", "sol", "istrue", "isfalse"}
 def comparable(hist, log):
     """the part of an answer log that must be identical in every schedule"""
     out = []
-    for ev, a in zip([e for e in hist if e[0] != "build"], log):
+    for ev, a in zip([e for e in hist if e[0] not in ("build", "strdigit", "streval")], log):
         if ev[0] in DETERMINISTIC or a in (("UNSAT",),) or (ev[0] in ("eval", "beval") and int(ev[2]) >= 9):
             out.append(a)
         else:
@@ -183,6 +213,8 @@ HISTS = {
     "E": [("build", 1), ("add", "c"), ("istrue", "x<u5", "none"), ("max", "x", "u", "none")],
     "F": [("add", "y>u6"), ("beval", "x,y", 9, "none")],
     "G": [("add", "F"), ("sat", "none"), ("eval", "x", 1, "none")],
+    "P": [("strdigit",), ("streval", "a")],
+    "Q": [("streval", "ab"), ("add", "x!=0"), ("eval", "x", 9, "none")],
     "S": [("add", "x<u5"), ("sat", "none")],
     "T": [("add", "x!=0"), ("min", "x", "u", "none")],
 }
@@ -199,7 +231,7 @@ def run_config(cfg):
     solo = {}
     for nm in set(names):
         out = {}
-        sh = {}
+        sh = {"S": claripy.StringS("c20s", explicit_name=True)}
         b = make_body("bv3", cls[0], HISTS[nm], sh, out, 0, {})
         t = threading.Thread(target=b, args=(None, 0))
         t.start()
@@ -214,7 +246,7 @@ def run_config(cfg):
 
     def run_here(prefix):
         out = {}
-        shared = {}
+        shared = {"S": claripy.StringS("c20s", explicit_name=True)}
         registry = {}
         bodies = [make_body("bv3", cls[i % len(cls)], HISTS[nm], shared, out, i, registry) for i, nm in enumerate(names)]
         s = Scheduler(bodies, codes, prefix=prefix, max_steps=60000, line_events=False)
@@ -230,7 +262,7 @@ def run_config(cfg):
                     s.violation = ("no-result", i)
                     break
                 if "failure" in o:
-                    s.violation = ("wrong-answer", i, H.ev_label(o["ev"]) if o["ev"][0] != "build" else "build", json.dumps(o["failure"], default=str)[:200])
+                    s.violation = ("wrong-answer", i, H.ev_label(o["ev"]) if o["ev"][0] not in ("build", "streval") else o["ev"][0], json.dumps(o["failure"], default=str)[:200])
                     break
                 if comparable(HISTS[nm], o["log"]) != solo[nm]:
                     s.violation = ("differs-from-solo", i, str(comparable(HISTS[nm], o["log"]))[:150], str(solo[nm])[:150])
@@ -373,14 +405,14 @@ def plan(tier):
     cfgs = []
     S = ["Solver"]
     if tier == "quick":
-        pairs = [("A", "B"), ("C", "E"), ("D", "F"), ("G", "A"), ("C", "C")]
+        pairs = [("A", "B"), ("C", "E"), ("D", "F"), ("G", "A"), ("C", "C"), ("P", "Q")]
         for p in pairs:
             cfgs.append(dict(hists=list(p), cls=S, bound=1))
         cfgs.append(dict(hists=["S", "T"], cls=["SolverCacheless"], bound=1))
         cfgs.append(dict(hists=["S", "T"], cls=["SolverComposite"], bound=1))
         cfgs.append(dict(hists=["S", "T", "S"], cls=S, bound=1, max_exec=600))
     else:
-        names = ["A", "B", "C", "D", "E", "F", "G"]
+        names = ["A", "B", "C", "D", "E", "F", "G", "P", "Q"]
         for i, a in enumerate(names):
             for b in names[i:]:
                 cfgs.append(dict(hists=[a, b], cls=S, bound=1))
